@@ -61,7 +61,7 @@ struct World {
 fn world() -> &'static World {
     static W: OnceLock<World> = OnceLock::new();
     W.get_or_init(|| {
-        let text = std::fs::read_to_string("/repo/tests/defs/defs.zinc").unwrap_or_else(|e| crate::engine::machinery(&format!("defs.zinc: {e}")));
+        let text = std::fs::read_to_string(format!("{}/tests/defs/defs.zinc", crate::engine::repo_dir())).unwrap_or_else(|e| crate::engine::machinery(&format!("defs.zinc: {e}")));
         let grid: Grid = match libhaystack::encoding::zinc::decode::from_str(&text) {
             Ok(Value::Grid(g)) => g,
             other => crate::engine::machinery(&format!("defs.zinc does not decode to a grid: {:?}", other.map(|_| ()))),
